@@ -239,8 +239,11 @@ def handleLLO (op : String) (j : Json) : Option (P Json) :=
           | none => outs := outs.push (Json.mkObj [("err", "refuse")])
           | some (rm, upd) =>
             let honest : Obs := { attested := [], shouldRetire := false, ts := ts, removes := rm, updates := upd, values := [] }
-            let obs := List.replicate nh honest ++ faulty
-            match (outcome env cfg {} (nh + nf) cur obs).bind (codecRoundTrip cfg) with
+            -- only observations that pass ValidateObservation reach Outcome
+            let faultyOk := faulty.filter fun o => (validateObservation env cfg 11 false o).isNone
+            let _ := nf
+            let obs := List.replicate nh honest ++ faultyOk
+            match (outcome env cfg {} (nh + faultyOk.length) cur obs).bind (codecRoundTrip cfg) with
             | .ok o =>
               cur := o
               outs := outs.push (Json.mkObj [("defs", jDefs o.defs), ("stage", .str o.stage),
